@@ -92,7 +92,7 @@ class _FixedRng:
     def __init__(self, order):
         self.order = order
 
-    def choice(self, n, size=None, replace=True):
+    def choice(self, n, size=None, replace=True, p=None, axis=0, shuffle=True):
         assert size == n and not replace
         idx = list(range(n))
         if self.order == "rev":
